@@ -8,11 +8,18 @@ cd /repo || exit 2
 git diff --quiet || { echo "/repo is dirty"; exit 2; }
 git apply $D/patch.diff || { echo "patch does not apply"; exit 2; }
 cd /verif
+# the seeded run must not leave its evidence / replay files behind as if they described /repo
+mkdir -p .build/seed_keep; cp -f evidence/$P.json .build/seed_keep/$P.json 2>/dev/null
+ls replay/$P 2>/dev/null | sort > .build/seed_keep/$P.replays.before
 S=$(date +%s)
 ./check $P $TIER > /verif/.build/seed_$N.$TIER.log 2>&1
 RC=$?
 E=$(date +%s)
 git -C /repo checkout -- .
+cp -f .build/seed_keep/$P.json evidence/$P.json 2>/dev/null
+mkdir -p $D/caught
+for f in $(ls replay/$P 2>/dev/null | sort | comm -13 .build/seed_keep/$P.replays.before -); do mv replay/$P/$f $D/caught/$f; done
+rmdir replay/$P 2>/dev/null
 V=$(grep -c '^VIOLATION' /verif/.build/seed_$N.$TIER.log)
 echo "$(date -u +%FT%TZ) $N check=$P tier=$TIER exit=$RC violations=$V wall=$((E-S))s" | tee -a $D/detected.log
 grep -A1 '^VIOLATION' /verif/.build/seed_$N.$TIER.log | grep 'failed:' | sed 's/^ */   /' | sort -u | tee -a $D/detected.log
